@@ -248,7 +248,7 @@ Proof.
 Qed.
 Print Assumptions C33_peer_handlers_total.
 
-(** "/ip4/8.8.8.8/tcp/13802" read as ip 8.8.8.8; limit 6.8.9 admits x@6.8.10,
+(** "/ip4/8.8.8.8/tcp/13802" read as ip 8.8.8.8; limit 6.8.9 lets x@6.8.10 pass,
     rejects x@6.8 (too few parts), x@6.8.8 and a string with two '@' *)
 Theorem C33_peer_handlers_example :
   parse_ip [47;105;112;52;47;56;46;56;46;56;46;56;47;116;99;112;47;49;51;56;48;50]%N = Done [56;46;56;46;56;46;56]%N
